@@ -654,7 +654,8 @@ variable [Field K] [LinearOrder K] [IsStrictOrderedRing K]
 
 /-- **normalized_fixes_normal_form**: `normalized_as(cs)` does not change an `ElasticConstants` object whose
     constants already are in the general normal form of `cs` (`InForm`: 3 cubic, 5 hexagonal, 7 tetragonal with
-    `C16 = -C26`, 7 rhombohedral with `C14`, `C15`, 9 orthorhombic constants, anything for triclinic). -/
+    `C16 = -C26`, 7 rhombohedral with `C14`, `C15`, 9 orthorhombic, 13 monoclinic constants (`C15`, `C25`, `C35`,
+    `C46`; `normalized_as('monoclinic')` exists since repo fix 877d779), anything for triclinic). -/
 theorem normalized_fixes_normal_form (eps atol rtol : K) (muK : Option (K × K)) (cs : String) (c : List K)
     (h : InForm cs c) (hc : cijSet eps atol rtol c = some c) :
     normalizedAs eps atol rtol muK cs c = some c := by
@@ -682,6 +683,16 @@ example : cijSet (1 / 1000000000 : ℚ) (1 / 1000000000) (1 / 100000) (tetraForm
     = some (tetraForm 144 127 64 56 37 45 (-17)) := by decide +kernel
 example : cijSet (1 / 1000000000 : ℚ) (1 / 1000000000) (1 / 100000) (rhomboForm 87 106 7 12 (-18) 3 58)
     = some (rhomboForm 87 106 7 12 (-18) 3 58) := by decide +kernel
+/-- a thirteen-constant monoclinic tensor (`C15`, `C25`, `C35`, `C46` non-zero) passes the setter unchanged, and
+    `normalized_as('monoclinic')` of a general (triclinic) tensor is a value: it keeps the thirteen constants and
+    zeroes `C14 C16 C24 C26 C34 C36 C45 C56`. -/
+example : cijSet (1 / 1000000000 : ℚ) (1 / 1000000000) (1 / 100000)
+      (monoForm 144 64 56 (-9) 171 48 7 127 (-13) 37 5 45 52)
+    = some (monoForm 144 64 56 (-9) 171 48 7 127 (-13) 37 5 45 52) := by decide +kernel
+example : normForm (K := ℚ) none "monoclinic"
+      [144, 64, 56, 3, -9, 2,  64, 171, 48, -4, 7, 6,  56, 48, 127, 1, -13, 8,
+       3, -4, 1, 37, 11, 5,  -9, 7, -13, 11, 45, -2,  2, 6, 8, 5, -2, 52]
+    = some (monoForm 144 64 56 (-9) 171 48 7 127 (-13) 37 5 45 52) := by decide +kernel
 
 /-- **elastic_model_normal_form_two**: written under `fac1`, read under `fac2`: the constants of a crystal in the
     normal form of `cs` come back multiplied by the pressure unit's factor ratio (and through the setter), none of
